@@ -111,6 +111,9 @@ func sccJustify(c *an.Ctx, scc *an.SCC, detector []*an.Guard, allFuncs []*ssa.Fu
 			break
 		}
 	}
+	if cyclic && relayBound(c, scc, edges) {
+		return "bound", ""
+	}
 	if !cyclic {
 		kind := "bound"
 		for _, k := range cutBy {
@@ -219,37 +222,43 @@ func grows(e an.CallEdge) bool {
 // complete traversal, a `for range` whose body always leaves the loop in the
 // first iteration (its last statement is a return) covers only its first
 // element. Decided on the syntax tree (go/ssa fuses the blocks of such loops).
-func loopCompleteness(c *an.Ctx, fn *ssa.Function, keyPrefix string) int {
+func loopCompleteness(c *an.Ctx, root *ssa.Function, keyPrefix string) int {
 	n := 0
-	syn := fn.Syntax()
-	if syn == nil {
-		return 0
-	}
-	_, pk := c.P.FileOf(fn.Pos())
-	ast.Inspect(syn, func(nd ast.Node) bool {
-		rs, ok := nd.(*ast.RangeStmt)
-		if !ok {
+	// the traversal and the private helpers it is split into; loops are keyed by the traversal and by the type
+	// ranged over (numbered in source order), not by the helper they sit in or by variable names
+	ord := map[string]int{}
+	for _, fn := range an.InlineReach(root) {
+		syn := fn.Syntax()
+		if syn == nil {
+			continue
+		}
+		_, pk := c.P.FileOf(fn.Pos())
+		ast.Inspect(syn, func(nd ast.Node) bool {
+			rs, ok := nd.(*ast.RangeStmt)
+			if !ok {
+				return true
+			}
+			n++
+			what := "?"
+			if pk != nil && pk.TypesInfo != nil {
+				if t := pk.TypesInfo.TypeOf(rs.X); t != nil {
+					what = strings.ReplaceAll(t.String(), an.RepoMod+"/", "")
+				}
+			}
+			ord[what]++
+			leaves := false
+			if l := len(rs.Body.List); l > 0 {
+				switch rs.Body.List[l-1].(type) {
+				case *ast.ReturnStmt:
+					leaves = true
+				}
+			}
+			key := fmt.Sprintf("%s|%s|range-over:%s#%d", keyPrefix, an.FuncName(root), what, ord[what])
+			c.Check(!leaves, key, "a traversal that callers rely on to visit every element must not leave its range loop unconditionally in the first iteration", c.P.Rel(rs.Pos()),
+				"the loop over "+types.ExprString(rs.X)+" ("+what+") returns at the end of its first iteration: only the first element is examined")
 			return true
-		}
-		n++
-		what := types.ExprString(rs.X)
-		if pk != nil && pk.TypesInfo != nil {
-			if t := pk.TypesInfo.TypeOf(rs.X); t != nil {
-				what += ":" + strings.ReplaceAll(t.String(), an.RepoMod+"/", "")
-			}
-		}
-		leaves := false
-		if l := len(rs.Body.List); l > 0 {
-			switch rs.Body.List[l-1].(type) {
-			case *ast.ReturnStmt:
-				leaves = true
-			}
-		}
-		key := fmt.Sprintf("%s|%s|range-over-%s", keyPrefix, an.FuncName(fn), what)
-		c.Check(!leaves, key, "a traversal that callers rely on to visit every element must not leave its range loop unconditionally in the first iteration", c.P.Rel(rs.Pos()),
-			"the loop over "+what+" returns at the end of its first iteration: only the first element is examined")
-		return true
-	})
+		})
+	}
 	return n
 }
 
@@ -336,4 +345,132 @@ func structuralOnDecoded(c *an.Ctx, scc *an.SCC, boundedAllocators map[*ssa.Func
 		}
 	}
 	return tname.Obj().Name(), ""
+}
+
+// relayBound: a recursion spread over several functions is bounded when one integer parameter per function carries
+// a depth that every edge of the component passes on unchanged or increased by a positive constant, every cycle
+// contains an edge that increases it, and every cycle contains an edge that is unreachable once its caller's depth
+// parameter exceeds a constant. (The single-function case - check and increment on the same edge - is decided by
+// the per-edge rule.)
+func relayBound(c *an.Ctx, scc *an.SCC, edges []an.CallEdge) bool {
+	inSCC := map[*ssa.Function]bool{}
+	for _, f := range scc.Funcs {
+		inSCC[f] = true
+	}
+	paramOfGuard := func(f *ssa.Function, g *an.Guard) *ssa.Parameter {
+		for _, b := range f.Blocks {
+			for _, in := range b.Instrs {
+				bo, ok := in.(*ssa.BinOp)
+				if !ok || !g.MatchValue(bo) || (bo.Op != token.GTR && bo.Op != token.GEQ) {
+					continue
+				}
+				x := bo.X
+				if cv, isC := x.(*ssa.Convert); isC {
+					x = cv.X
+				}
+				if p, isP := x.(*ssa.Parameter); isP {
+					return p
+				}
+			}
+		}
+		return nil
+	}
+	for _, start := range scc.Funcs {
+		for _, g0 := range an.BoundGuards(start) {
+			p0 := paramOfGuard(start, g0)
+			if p0 == nil {
+				continue
+			}
+			depth := map[*ssa.Function]*ssa.Parameter{start: p0}
+			ok := true
+			for changed := true; changed && ok; {
+				changed = false
+				for _, e := range edges {
+					if e.Site == nil {
+						ok = false
+						break
+					}
+					d := depth[e.Caller]
+					if d == nil {
+						continue
+					}
+					args := e.Site.Common().Args
+					found := -1
+					for j, a := range args {
+						if a == ssa.Value(d) {
+							found = j
+						}
+						if b, isB := a.(*ssa.BinOp); isB && b.Op == token.ADD && b.X == ssa.Value(d) {
+							if k, isK := b.Y.(*ssa.Const); isK && k.Value != nil && k.Int64() > 0 {
+								found = j
+							}
+						}
+					}
+					if found < 0 || found >= len(e.Callee.Params) {
+						ok = false
+						break
+					}
+					if cur := depth[e.Callee]; cur == nil {
+						depth[e.Callee] = e.Callee.Params[found]
+						changed = true
+					} else if cur != e.Callee.Params[found] {
+						ok = false
+						break
+					}
+				}
+			}
+			if !ok || len(depth) != len(scc.Funcs) {
+				continue
+			}
+			grow, guarded := map[int]bool{}, map[int]bool{}
+			for i, e := range edges {
+				d := depth[e.Caller]
+				for _, a := range e.Site.Common().Args {
+					if b, isB := a.(*ssa.BinOp); isB && b.Op == token.ADD && b.X == ssa.Value(d) {
+						grow[i] = true
+					}
+				}
+				for _, g := range an.BoundGuards(e.Caller) {
+					if paramOfGuard(e.Caller, g) != d {
+						continue
+					}
+					e := e
+					v := an.Guarded(c.P, e.Caller, []*an.Guard{g}, func(in ssa.Instruction) bool { return in == ssa.Instruction(e.Site) }, false)
+					if v.Holds && v.GuardSites > 0 {
+						guarded[i] = true
+					}
+				}
+			}
+			acyclicWithout := func(cut map[int]bool) bool {
+				adj := map[*ssa.Function][]*ssa.Function{}
+				for i, e := range edges {
+					if !cut[i] {
+						adj[e.Caller] = append(adj[e.Caller], e.Callee)
+					}
+				}
+				state := map[*ssa.Function]int{}
+				var cyc func(f *ssa.Function) bool
+				cyc = func(f *ssa.Function) bool {
+					state[f] = 1
+					for _, g := range adj[f] {
+						if state[g] == 1 || (state[g] == 0 && cyc(g)) {
+							return true
+						}
+					}
+					state[f] = 2
+					return false
+				}
+				for _, f := range scc.Funcs {
+					if state[f] == 0 && cyc(f) {
+						return false
+					}
+				}
+				return true
+			}
+			if acyclicWithout(grow) && acyclicWithout(guarded) {
+				return true
+			}
+		}
+	}
+	return false
 }
